@@ -118,3 +118,21 @@ package forwarder
 //@   ensures [freshres] usars == nil || fresh(usars)
 //@   modifies nothing
 
+// ---------------------------------------------------------------------------------------------
+// Re-injection of a buffered packet (C14, C13): what WritePacket hands to the gtp5g link is a G-PDU for the FAR's
+// tunnel, byte for byte (oracle: TS 29.281 5.1/5.2, TS 38.415 5.5.2; independent of gtpv1's own contracts, which
+// are used only modularly).  Entry assumptions: the QFI is a 6-bit value, the payload fits a UDP datagram.
+//@ func (g *Gtp5g) WritePacket(far *gtp5gnl.FAR, qer *gtp5gnl.QER, pkt []byte) (err error)
+//@   requires g != nil && g.link != nil && g.link.conn != nil && far != nil && len(pkt) <= 65000 && (qer != nil ==> qer.QFI <= 63)
+//@   ensures [nofar] (far.Param == nil || far.Param.Creation == nil) ==> err != nil
+//@   modifies nothing
+//@   serves C14 C13
+//@   at call WriteTo:
+//@     assert [peer]    typeis(arg1, *net.UDPAddr) && arg1.(*net.UDPAddr).Port == int(far.Param.Creation.Port) && arg1.(*net.UDPAddr).IP == far.Param.Creation.PeerAddr
+//@     assert [fixed]   arg0[0] == 0x34 && arg0[1] == 255
+//@     assert [length]  uint16(arg0[2])<<8 | uint16(arg0[3]) == uint16(len(arg0) - 8)
+//@     assert [teid]    uint32(arg0[4])<<24 | uint32(arg0[5])<<16 | uint32(arg0[6])<<8 | uint32(arg0[7]) == far.Param.Creation.TEID
+//@     assert [opt]     arg0[8] == 0 && arg0[9] == 0 && arg0[10] == 0
+//@     assert [noqer]   qer == nil ==> len(arg0) == 12 + len(pkt) && arg0[11] == 0
+//@     assert [qer]     qer != nil ==> len(arg0) == 16 + len(pkt) && arg0[11] == 0x85 && arg0[12] == 1 && arg0[13] == 0 && arg0[14] == qer.QFI && arg0[15] == 0
+//@     assert [payload] forall j int :: 0 <= j && j < len(pkt) ==> arg0[len(arg0) - len(pkt) + j] == pkt[j]
